@@ -67,9 +67,17 @@ def _set(doc, path, value, delete=False, dup=False):
     return d
 
 
+_HANGS = mp.Value("i", 0)
+
+
 def _parse_job(job):
     doc, label = job
-    data, exc = gen.parse(doc, limit=30)
+    if _HANGS.value >= 4:
+        return label, None
+    data, exc = gen.parse(doc, limit=20)
+    if exc == "HANG":
+        with _HANGS.get_lock():
+            _HANGS.value += 1
     return label, exc
 
 
@@ -268,9 +276,11 @@ def run(rep) -> None:
     try:
         # termination + totality on the models (liveness under fairness, no state constraint) and replay of every enumerated case
         cases = pipe.run_universe(rep, 3, d)
+        hangs = 0
         for c in cases:
             doc = pipe.concretize(c["doc"])
-            data, exc = gen.parse(doc)
+            data, exc = gen.parse(doc, limit=4) if hangs < 3 else (None, None)
+            hangs += exc == "HANG"
             rep.count(1, tuple((s["k"], s["t"]) for s in c["doc"]) if c["bad"] else None)
             if exc is not None:
                 rep.violate(f"C06/crash/{crash_site(exc)}", "unhandled exception / hang on a document of Pipeline.tla's universe",
@@ -283,7 +293,7 @@ def run(rep) -> None:
         real = ops.replay_many([c["op"] for c in ocases])
         for c, pr in zip(ocases, real):
             rep.count(1)
-            if "exc" in pr and not pr["exc"].startswith("REJECTED"):
+            if "exc" in pr and not pr["exc"].startswith(("REJECTED", "SKIPPED")):
                 rep.violate(f"C06/crash/{crash_site(pr['exc'])}", "unhandled exception / hang on an operation of Ops.tla's universe",
                             op=c["op"], exc=pr["exc"])
         rep.extra["documents"] = len(cases)
